@@ -1410,6 +1410,40 @@ impl PolicyState {
     }
 }
 
+/// order-preserving natural for a score / bound / threshold (non-positive values, incl. the
+/// `Score::MIN` sentinel, map to 0; BM25 scores are positive)
+fn score_key(x: f32) -> u64 {
+    if x > 0.0 { x.to_bits() as u64 + 1 } else { 0 }
+}
+
+fn model_wand_single(ctx: &mut Ctx, searcher: &Searcher, reader: &SegmentReader, field: Field, term: &Term, policy: &Policy, initial: f32) -> Option<String> {
+    let w = Bm25Weight::for_terms(searcher, &[term.clone()]).ok()?;
+    let inv = reader.inverted_index(field).ok()?;
+    let fnr = reader.get_fieldnorms_reader(field).ok()?;
+    let mut bp = inv.read_block_postings(term, IndexRecordOption::WithFreqs).ok()??;
+    let doc_freq = bp.doc_freq();
+    let mut blocks: Vec<String> = vec![];
+    loop {
+        let docs = bp.docs().to_vec();
+        if docs.is_empty() {
+            break;
+        }
+        let freqs = bp.freqs().to_vec();
+        // full blocks carry a stored bound; a short posting list is loaded when opened (true
+        // maximum); the trailing partial block of a longer list is reached by a shallow seek and
+        // is bounded by `max_score` until it is loaded
+        let bm = if docs.len() == 128 || doc_freq < 128 { bp.block_max_score(&fnr, &w) } else { w.max_score() };
+        let body: Vec<String> = docs.iter().zip(freqs.iter()).map(|(d, f)| format!("{d}@{}", score_key(w.score(fnr.fieldnorm_id(*d), *f)))).collect();
+        blocks.push(format!("{}:{}", score_key(bm), body.join(",")));
+        bp.advance();
+    }
+    if blocks.len() > 40 {
+        return None; // keep the request lines small
+    }
+    let (pol, arg) = match policy { Policy::Const(b) => ("const", score_key(f32::from_bits(*b))), Policy::Staircase => ("stair", 0), Policy::KthBest(k) => ("kth", *k as u64) };
+    Some(ctx.model.ask(&format!("C06 wand1 {pol} {arg} {} {}", score_key(initial), if blocks.is_empty() { "-".to_string() } else { blocks.join(";") })))
+}
+
 fn driver_case(ctx: &mut Ctx, spec: &CorpusSpec, built: &Built, searcher: &Searcher, q: &Q, policy: &Policy, initial: f32) {
     use tantivy::query::EnableScoring;
     let query = q.build(&built.fields);
@@ -1438,6 +1472,22 @@ fn driver_case(ctx: &mut Ctx, spec: &CorpusSpec, built: &Built, searcher: &Searc
         if r.is_err() || !matches!(r, Ok(Ok(()))) {
             ctx.report.violation("oracle", "C06:pruning-driver-failed", format!("for_each_pruning on {} (segment {ord}) failed or panicked", q.to_json()), case);
             continue;
+        }
+        // correspondence with Model/Wand.lean::wandSingle: the term's postings cut into the blocks
+        // the real driver sees, each with the bound it reads for it
+        if let Q::Term(t) = q {
+            let (field, term) = term_of(&built.fields, t);
+            if field != built.fields.basic {
+                if let Some(resp) = model_wand_single(ctx, searcher, reader, field, &term, policy, initial) {
+                    let model_calls: Vec<DocId> = resp.split('|').next().map(|c| if c == "-" { vec![] } else { c.split(',').filter_map(|x| x.parse().ok()).collect() }).unwrap_or_default();
+                    let real_calls: Vec<DocId> = got.iter().map(|(d, _)| *d).collect();
+                    ctx.report.count("wand-single-vs-model");
+                    if model_calls != real_calls {
+                        let p = (0..model_calls.len().max(real_calls.len())).find(|i| model_calls.get(*i) != real_calls.get(*i)).unwrap_or(0);
+                        ctx.report.violation("model", "C06:wand-single-model-mismatch", format!("{} on segment {ord}, policy {policy:?}, initial {initial:?}: block_wand_single_scorer offers {:?} at call {p}, the model {:?} ({} vs {} calls)", q.to_json(), real_calls.get(p), model_calls.get(p), real_calls.len(), model_calls.len()), case.clone());
+                    }
+                }
+            }
         }
         if got != expected {
             let p = (0..got.len().max(expected.len())).find(|i| got.get(*i) != expected.get(*i)).unwrap_or(0);
@@ -1717,6 +1767,7 @@ pub fn run(ctx: &mut Ctx) {
         "TopNComputer::threshold after every push = model threshold".into(),
         "Searcher::search(TopDocs by score / fast field asc,desc (u64,i64,f64,date,str) / tweak_score / custom SortKeyComputer / pair) = model topK of the same searcher's exhaustive (doc,key) list".into(),
         "paging over successive offsets enumerates every match exactly once".into(),
+        "block_wand_single_scorer's callback sequence = Model/Wand.lean::wandSingle on the term's real blocks and bounds".into(),
         "Weight::for_each_pruning (block_wand_single_scorer / block_wand / block_wand_intersection) under constant, staircase and K-th-best callback policies = the exhaustive loop with the same callback (1-2 clause queries, bit-exact)".into(),
         "known bound failures (UB_max, UB_block) recomputed through the public postings API before attribution".into(),
     ];
